@@ -457,6 +457,27 @@ REGISTRY.update({"C13": (check_c13, "model_checking")})
 # --------------------------------------------------------------------------------------------------
 # C16 seeded generator
 # --------------------------------------------------------------------------------------------------
+def key_events(lines):
+    """hcv keys / c18 records -> Trace_Keys events: residues as limb arrays, the small error as an untrusted hint (centred first residue)."""
+    out = []
+    for l in lines:
+        e = json.loads(l) if isinstance(l, str) else l
+        q = [int(x) for x in e["q"]]
+        comps = []
+        for comp in e["comps"]:
+            res, hint = [], []
+            for c in comp:
+                r0 = int(c[0])
+                v = r0 if r0 <= q[0] // 2 else r0 - q[0]
+                if abs(v) >= 1 << 30:
+                    v = 1 << 30            # far outside any bound: TLC rejects it
+                hint.append(v)
+                res.append([arith.limbs(int(x)) for x in c])
+            comps.append({"res": res, "e": hint})
+        out.append(json.dumps({"what": e["what"], "n": e["n"], "q": [arith.limbs(x) for x in q], "bound": e["bound"], "mult": e.get("mult", 1), "comps": comps}))
+    return out
+
+
 def check_c16(rep):
     quick = rep.tier == "quick"
     wd = workdir("C16")
@@ -509,10 +530,22 @@ def check_c16(rep):
         sig = {"part": e["ev"], "what": e.get("what") or e.get("k") or e.get("pset")}
         small = {k: v for k, v in e.items() if k not in ("events", "poly")}
         rep.violation(sig, {"event": small, "line": b[0]})
+    # key material as RLWE samples (Keys.tla): c0 + c1*s - payload is ONE small integer per coefficient in every key-level prime
+    kraw = []
+    for ps in (["bfv_8_17_40,40,50", "bgv_8_17_30,50,40,60", "ckks_8_0_40,40,40,50", "bfv_16_97_36,45"] if quick else
+               ["bfv_8_17_40,40,50", "bgv_8_17_30,50,40,60", "ckks_8_0_40,40,40,50", "bfv_16_97_36,45", "bgv_4_17_20,25,30,35,40,45", "bfv_32_193_60,60,60", "ckks_16_0_25,60"]):
+        kraw += [json.loads(l) for l in hcv(["keys", ps, "2" if quick else "5"], timeout=900).splitlines()]
+    kbad, kst = arith.validate(key_events(kraw), wd, name="keys", module="Trace_Keys", chunks=4)
+    for b in kbad:
+        e = kraw[b[0] - 1]
+        rep.violation({"part": "key_rlwe", "what": e["what"], "detail": e["detail"]}, {"event": {k: v for k, v in e.items() if k != "comps"}, "line": b[0]})
+    rep.cov["key_components_checked"] = sum(len(e["comps"]) for e in kraw)
+    rep.cov["key_events"] = {w: sum(1 for e in kraw if e["what"] == w) for w in sorted({e["what"] for e in kraw})}
+    st = {"distinct": st["distinct"] + kst["distinct"], "generated": st["generated"] + kst["generated"]}
     rep.cov["states"] = r["distinct"] + st["distinct"]
     rep.cov["transitions"] = r["generated"] + st["generated"]
-    rep.cov["traces_validated_against_impl"] = len(behs) + len(raw)
-    rep.cov["evaluations"] = len(behs) + len(raw)
+    rep.cov["traces_validated_against_impl"] = len(behs) + len(raw) + len(kraw)
+    rep.cov["evaluations"] = len(behs) + len(raw) + len(kraw)
     rep.cov["distinct_nontrivial"] = len({(p, s["op"], s["n"]) for p, s in trans})
     rep.cov["stream_positions"] = len(paths)
     rep.cov["stream_transitions"] = len(trans)
@@ -520,11 +553,12 @@ def check_c16(rep):
     rep.cov["rule"] = ("stream: every (position, call) pair of BlakeRng.tla with position <= %d and call in fill_bytes(%s), next_u32, next_u64, each reached by TLC's shortest call "
                        "sequence and compared byte-for-byte with an independent BLAKE3-XOF recomputation of the documented stream for 8 seeds; histories: masks / stored seeds of "
                        "mixed encryptions and key generations pairwise distinct, equal explicit generator states give equal masks (seeded and unseeded variants), 32-byte stream "
-                       "windows distinct; samples: ternary / error / uniform polynomials for 1..6 primes; frequencies as sanity bounds" % (maxpos, sizes))
+                       "windows distinct; samples: ternary / error / uniform polynomials for 1..6 primes; frequencies as sanity bounds; key material: every component of public, relinearization, "
+                       "Galois and key-switching keys (seeded and unseeded) is an RLWE sample c0 + c1*s = payload + e with |e| <= 21 (Keys.tla)" % (maxpos, sizes))
     rep.samples += [behs[0], behs[len(behs) // 2]]
     rep.assumptions += ["the reference stream is BLAKE3-XOF(seed || le64(counter)) in 4096-byte blocks, recomputed with the blake3 crate independently of BlakeRNG",
                         "masks are compared through 96-bit BLAKE3 digests", "distribution checks are 6-7 sigma sanity bounds, not decisions"]
-    log("[C16] %d stream transitions (%d mismatches), %d recorded events (%d rejected)" % (len(behs), nv, len(raw), len(bad)))
+    log("[C16] %d stream transitions (%d mismatches), %d recorded events (%d rejected), %d key events (%d rejected)" % (len(behs), nv, len(raw), len(bad), len(kraw), len(kbad)))
 
 
 REGISTRY.update({"C16": (check_c16, "model_checking")})
@@ -654,6 +688,7 @@ def check_c18(rep):
     if not quick:
         plan += [("bfv_8_17_50,50,50,50", ["pk", "relin", "decrypt", "keyswitch", "c2s", "s2c"]), ("bfv_16_97_30,30", ["pk", "decrypt", "keyswitch", "pkswitch"])]
     total = 0
+    kevents = []
     for pset, protos in plan:
         behs = []
         for proto in protos:
@@ -665,6 +700,8 @@ def check_c18(rep):
         nv = 0
         for beh, res in results:
             if res["status"] == "ok":
+                for ke in res.get("key_events", []):
+                    kevents.append((pset, beh, ke))
                 continue
             if res["status"] == "tool_error":
                 raise ToolError(str(res))
@@ -673,13 +710,24 @@ def check_c18(rep):
         total += len(behs)
         log("[C18] %s: %d behaviours, %d mismatches" % (pset, len(behs), nv))
         rep.samples.append({"pset": pset, "proto": behs[len(behs) // 2]["proto"], "n": behs[len(behs) // 2]["n"], "steps": behs[len(behs) // 2]["steps"]})
+    # the collective public keys as RLWE samples under the SUM of the parties' secret keys (Keys.tla; error bound 21 per party)
+    if kevents:
+        kbad, kst = arith.validate(key_events([k[2] for k in kevents]), wd, name="keys", module="Trace_Keys", chunks=4)
+        for b in kbad:
+            pset, beh, ke = kevents[b[0] - 1]
+            rep.violation({"proto": beh["proto"], "scheme": pset.split("_")[0], "kind": "collective key is not an RLWE sample under the sum of the secret keys"},
+                          {"pset": pset, "behaviour": beh, "event": {k: v for k, v in ke.items() if k != "comps"}})
+        rep.cov["states"] += kst["distinct"]
+        rep.cov["transitions"] += kst["generated"]
+    rep.cov["collective_public_keys_checked_as_rlwe_samples"] = len(kevents)
     rep.cov["traces_validated_against_impl"] = total
     rep.cov["evaluations"] = total
     rep.cov["distinct_nontrivial"] = sum(len(v) for v in orders.values()) * len(plan[0][1])
     rep.cov["rule"] = ("behaviours = delivery orders of the n(n-1) messages of one broadcast round interleaved with finish attempts (at most one premature), enumerated by TLC over "
                        "Multiparty.tla for n = 2, 3 and simulated for n >= 4; each order is replayed with real Participants for each protocol (public key, secret-key revelation, "
                        "two-round relinearization keys, collective decryption, key switch, public-key switch, cipher->shares, shares->cipher): premature finish must be refused, all "
-                       "parties' outputs byte-identical, collective keys work under the sum of the secret keys, plaintext preserved")
+                       "parties' outputs byte-identical, collective keys work under the sum of the secret keys and the collective public key is an RLWE sample c0 + c1*(s_1+..+s_n) = e with |e| <= 21 n "
+                       "(Keys.tla), plaintext preserved")
     rep.assumptions += ["the abstract round (sum of shares in Z_97) is the design; the binding checks the concrete ring identities through ordinary encryption/decryption under the summed key",
                         "CKKS plaintexts are compared within 1e-3"]
 
